@@ -1,7 +1,7 @@
 """Shared machinery of the /verif checks: building the Go harness against /repo's current
 working tree, running TLC (model checking, behaviour generation, trace validation), and
 writing evidence files.  Exit codes: 0 held, 1 reproduced violation, 2 inconclusive."""
-import json, os, re, shutil, subprocess, sys, time, hashlib
+import json, os, re, shutil, subprocess, sys, time, hashlib, threading
 
 VERIF = os.path.dirname(os.path.dirname(os.path.abspath(__file__)))
 REPO = "/repo"
@@ -33,11 +33,17 @@ def sh(cmd, cwd=None, env=None, timeout=None, check=True, capture=True):
 
 
 _built = {}
+_build_lock = threading.Lock()
 
 
 def build_vrun(race=False):
     """(Re)build the harness binary against /repo's current working tree, hooks enabled."""
     name = "vrun-race" if race else "vrun"
+    with _build_lock:
+        return _build_vrun_locked(name, race)
+
+
+def _build_vrun_locked(name, race):
     if name in _built:
         return _built[name]
     os.makedirs(BIN, exist_ok=True)
